@@ -345,7 +345,10 @@ def build(spec, log, asynchronous, consumer_modes=None, faults=None, wrap_fn=Non
         elif k == "starmap":
             s = ups[0].starmap(fn(i, p["f"]))
         elif k == "filter":
-            s = ups[0].filter(fn(i, p["f"]))
+            if i % 2:       # documented alias: remove(p) == filter(not p)
+                s = ups[0].remove(lambda x, _f=fn(i, p["f"]): not _f(x))
+            else:
+                s = ups[0].filter(fn(i, p["f"]))
         elif k == "accumulate":
             kw = {}
             if p["start"] is not None:
@@ -354,7 +357,7 @@ def build(spec, log, asynchronous, consumer_modes=None, faults=None, wrap_fn=Non
                 kw["returns_state"] = True
             if p["ws"]:
                 kw["with_state"] = True
-            s = ups[0].accumulate(fn(i, p["f"]), **kw)
+            s = (ups[0].scan if i % 2 else ups[0].accumulate)(fn(i, p["f"]), **kw)   # alias
         elif k == "slice":
             s = ups[0].slice(p["a"], p["b"], p["c"])
         elif k == "partition":
@@ -374,7 +377,7 @@ def build(spec, log, asynchronous, consumer_modes=None, faults=None, wrap_fn=Non
         elif k == "unique":
             s = ups[0].unique(maxsize=p["maxsize"], key=fn(i, p["key"]), hashable=p["hashable"])
         elif k == "flatten":
-            s = ups[0].flatten()
+            s = ups[0].concat() if i % 2 else ups[0].flatten()   # alias
         elif k == "pluck":
             s = ups[0].pluck(p["pick"])
         elif k == "collect":
